@@ -369,7 +369,17 @@ def spec_resnetwork():
     def upd(o, rng):
         R = res_matrix(rng, o._verif_A) * rng.choice([2.0, 3.0, 0.5])
         o.update_resistances(R)
-    return dict(cls=ResNetwork, make=make, twin=twin, mutators={"update_resistances": upd},
+    def rewire(o, rng):
+        # new topology on the same nodes (some links removed, some added), then new resistances
+        n = o.N
+        A2 = conn_graph(rng, n, rng.choice([0.3, 0.6]), components=1)
+        if np.array_equal(A2, o._verif_A):
+            A2 = conn_graph(rng, n, 0.9, components=1)
+        o.adjacency = A2
+        o._verif_A = A2
+        o.update_resistances(res_matrix(rng, A2))
+    return dict(cls=ResNetwork, make=make, twin=twin,
+                mutators={"update_resistances": upd, "adjacency=;update_resistances": rewire},
                 summary=["N", "n_links", "get_admittance()", "get_R()",
                          "effective_resistance(0, 1)", "average_effective_resistance()",
                          "diameter_effective_resistance()", "admittive_degree()",
